@@ -3,11 +3,11 @@
 import json, subprocess
 claimed = {
  "C04": ("exploration", "§5 C04",
-   "Seeded deterministic-simulation search over envelope histories (edits, calculate via library and via cli.Build over a faulty-but-benign simulated stream, persist / crash-restart / lost write / re-encoding of the durable bytes, fake-clock jumps up to decades, entropy reseeds, read-only operations, k-fold repetition). Oracles: calculate on a calculated envelope is the byte identity across any number of restarts and clock positions; parse∘serialise is the identity on every byte string the system produced; read-only operations leave the bytes unchanged; identifiers and dates never change once set. Sampling, not proof: the right level because the property quantifies over unbounded histories and the only nondeterminism that matters (clock, entropy, in-memory vs durable state, map order) is owned or sampled by the simulator.",
+   "Seeded deterministic-simulation search over envelope histories that start from the source document as a user wrote it (the first calculation happens inside the run; business edits incl. unusual-but-legal spellings, mixed rate keys, breakdowns, discounts, advances, replaced addons; header entries; calculate via library and via cli.Build over a faulty-but-benign simulated stream, persist / crash-restart / lost write / re-encoding of the durable bytes, fake-clock jumps up to decades, entropy reseeds, read-only operations, k-fold repetition). Oracles: calculate on a calculated envelope is the byte identity across any number of restarts and clock positions; parse∘serialise is the identity on every byte string the system produced; read-only operations leave the bytes unchanged; identifiers and dates never change once set. Sampling, not proof: the right level because the property quantifies over unbounded histories and the only nondeterminism that matters (clock, entropy, in-memory vs durable state, map order) is owned or sampled by the simulator.",
    "Corpus = shipped example documents + seeded business edits. Map iteration order is sampled by repetition (not a seam). gobl is compiled with go1.26.8 for testing/synctest and testing/cryptotest.",
    "deterministic simulation: seeded histories with crash/restart, lost-write, re-encode and clock-jump faults against a byte-identity oracle"),
  "C08": ("fault_enumeration", "§5 C08",
-   "Storage-fault enumeration between persist and restore of a calculated (and signed) envelope: thorough enumerates every JSON pointer of every corpus envelope with every applicable single content-changing fault (alter leaf, remove member, add member, swap/delete/duplicate array element, raw bit flip inside value bytes) and seeded content-preserving re-encodings (member order, whitespace, escape style); quick takes a seeded sample of pointer blocks. Oracle: re-encodings validate and recalculate to the same digest; every content change is refused on restore (parse error, validation error or digest error) and, after recalculation, yields a different digest whenever the recalculated content differs.",
+   "Storage-fault enumeration between persist and restore of a calculated (and signed) envelope: thorough enumerates every JSON pointer of every corpus envelope with every applicable single content-changing fault (alter leaf, remove member, add member, swap/delete/duplicate array element, raw bit flip inside value bytes) and seeded content-preserving re-encodings (member order, whitespace, escape style); quick takes a seeded sample of pointer blocks. Oracle: re-encodings validate and recalculate to the same digest; every content change is refused on restore (parse error, validation error or digest error) and, after recalculation, yields a different digest whenever the recalculated content differs. A third sub-check applies the same clause to a change made in memory (typed API) after a restore; faults on the stored digest itself are included.",
    "Faults are restricted to changes that are semantic under any reading (no case-only changes, no renames, no unknown member names). 'Add member' candidates come from the corpus, not the schema files. One open known finding ($regime removal).",
    "deterministic fault enumeration over durable bytes (single storage fault per restore) with digest/validation oracle"),
  "C09": ("exploration", "§5 C09",
@@ -31,11 +31,11 @@ claimed = {
    "Texts are what the system itself serialises or ships plus a dozen literals; the reference canonicaliser does not assert floats with more than 15 significant digits nor the sign of zero.",
    "deterministic stream-fault enumeration (chunking, torn EOF at every offset, read errors, trailing bytes, re-encoding) over a simulated reader, reference-canonicaliser oracle"),
  "C14": ("fault_enumeration", "§5 C14",
-   "Fault enumeration in child processes over every corpus document: member-level transport faults at every JSON pointer (member lost / nulled / retyped / duplicated, array element lost / duplicated / nulled, leaf altered, unknown currency / country / regime / addon / schema codes, empty / null / garbage signature entries, header without digest) and byte-level stream faults (torn EOF, read error, stall until the context is cancelled, cancellation before the read, bit flips, chunking, zero-length reads) through gobl.Parse, json.Unmarshal, c14n and cli.Build/Validate/Verify/Sign/Correct/Replicate over simulated readers; whatever parses goes through the full chain calculate → validate → digest → sign → verify → correct → replicate; amplification inputs (nesting depth up to 100 000, 1 MiB digit strings, thousands of lines); and scheduler-controlled bulk streams (CLI and HTTP style) in which malformed requests are interleaved with well-formed ones. Oracles: no panic (recovered per operation; a worker panic kills the child and is attributed by the parent), every error of the envelope API is a *gobl.Error with a key declared in errors.go that serialises to JSON, every CLI error is a *cli.Error with a status, a stalled read is released by cancelling its context, every bulk stream still delivers exactly one correct response per request and its final marker within the step bound.",
+   "Fault enumeration in child processes over every corpus document: member-level transport faults at every JSON pointer (member lost / nulled / retyped / duplicated, array element lost / duplicated / nulled, leaf altered, unknown currency / country / regime / addon / schema codes, empty / null / garbage signature entries, header without digest) and byte-level stream faults (torn EOF, read error, stall until the context is cancelled, cancellation before the read, bit flips, chunking, zero-length reads) through gobl.Parse, json.Unmarshal, c14n and cli.Build/Validate/Verify/Sign/Correct/Replicate over simulated readers; whatever parses goes through the full chain calculate → validate → digest → sign → verify → correct → replicate; amplification inputs (nesting depth up to 100 000, 1 MiB digit strings, thousands of lines); scheduler-controlled bulk streams (CLI and HTTP style) in which malformed requests are interleaved with well-formed ones; the HTTP handlers (/build, /verify, /key, /bulk, /) and the cobra commands given damaged requests, flags and input; and every corpus document (shipped examples plus synthetic variants) must build without panicking. Oracles: no panic (recovered per operation; a worker panic kills the child and is attributed by the parent), every error of the envelope API is a *gobl.Error with a key declared in errors.go that serialises to JSON, every CLI error is a *cli.Error with a status, a stalled read is released by cancelling its context, every bulk stream still delivers exactly one correct response per request and its final marker within the step bound.",
    "The arbitrary-bytes input space is covered only as far as these fault operators derive it from real documents. 25 open known findings of one class (a JSON null inside an array of objects is dereferenced) are listed in known_findings.json by panic site; any other panic site is a violation.",
    "deterministic fault enumeration (member/byte/stream faults, cancellation, amplification) with panic-site signatures; crash detection across child processes"),
  "C15": ("exploration", "§5 C15",
-   "Four checks. (bulk, deterministic) seeded schedule search over 1–3 concurrent bulk streams, CLI-style and HTTP-style, of 1–40 mixed requests: gobl's decoder and worker goroutines park at build-tag-guarded yield hooks, the simulated reader, the consumer and a virtual clock are scheduler actions, and a seeded weighted scheduler with starvation directives grants one task at a time inside a synctest bubble; oracle: exactly one response per accepted request with its req_id and 1-based position, payload equal to the same request executed alone at the same simulated instant, one final marker, last, seq n+1, error iff the stream ended in a decode error, and completion within a step bound. (interleave, deterministic) 2–8 library callers over independent documents advanced in scheduler-chosen order, each step equal to the slot's solo run. (shared, deterministic) a deep fingerprint of every package-level variable of every gobl package (generated from the tree under test; slices hashed to capacity) is unchanged after every operation over every corpus document and every invoice × registered addon pairing. (race, monitor) the same workload on free-running goroutines in a -race binary at GOMAXPROCS 1/4/16.",
+   "Five checks. (bulk, deterministic) seeded schedule search over 1–3 concurrent bulk streams, CLI-style and HTTP-style, of 1–40 mixed requests: gobl's decoder and worker goroutines park at build-tag-guarded yield hooks, the simulated reader, the consumer and a virtual clock are scheduler actions, and a seeded weighted scheduler with starvation directives grants one task at a time inside a synctest bubble; oracle: exactly one response per accepted request with its req_id and 1-based position, payload equal to the same request executed alone at the same simulated instant, one final marker, last, seq n+1, error iff the stream ended in a decode error, and completion within a step bound. (interleave, deterministic) 2–8 library callers over independent documents advanced in scheduler-chosen order, each step equal to the slot's solo run. (shared, deterministic) a deep fingerprint of every package-level variable of every gobl package (generated from the tree under test; slices hashed to capacity) is unchanged after every operation over every corpus document and every invoice × registered addon pairing. (race, racebulk: monitors) the same library workload, and free-running bulk streams with the HTTP-style ones on one shared server, in a -race binary at GOMAXPROCS 1/4/16; the pairing oracle is applied to what each client received.",
    "Bulk requests operate on independent documents, so per-request equality with the standalone execution is the complete sequential specification. The race check is a runtime monitor of the Go scheduler's own interleavings (labelled as such in the evidence); its replay re-runs the workload until the detector reports again.",
    "deterministic simulation: seeded parking scheduler over guarded yield hooks + shared-state fingerprint; race detector as monitor"),
 }
